@@ -309,12 +309,22 @@ func c13ServiceArea(c *core.Ctx, k *core.Case) {
 		poolSnap = append([]string(nil), pool...)
 	}
 	c.Eval(1)
+	sar := models.ServiceAreaRestriction{RestrictionType: rt, Areas: areas}
+	if k.I[0]&2 == 2 {
+		// the members the conversion does not name (maximum numbers of tracking areas, area
+		// codes) hold what the subscription data gave them
+		n := fillUnmodelled(&sar, r, "RestrictionType", "Areas")
+		for i := range sar.Areas {
+			n += fillUnmodelled(&sar.Areas[i], r, "Tacs")
+		}
+		c.Count("inputs_with_unmodelled_members_set", int64(n))
+	}
 	if _, owned := ownedTwice(func() []byte {
-		return nasConvert.PartialServiceAreaListToNas(models.PlmnId{Mcc: mcc, Mnc: mnc}, models.ServiceAreaRestriction{RestrictionType: rt, Areas: areas})
+		return nasConvert.PartialServiceAreaListToNas(models.PlmnId{Mcc: mcc, Mnc: mnc}, sar)
 	}); owned != "" {
 		c.Fail(k, "result-not-owned:PartialServiceAreaListToNas", owned)
 	}
-	enc := nasConvert.PartialServiceAreaListToNas(models.PlmnId{Mcc: mcc, Mnc: mnc}, models.ServiceAreaRestriction{RestrictionType: rt, Areas: areas})
+	enc := nasConvert.PartialServiceAreaListToNas(models.PlmnId{Mcc: mcc, Mnc: mnc}, sar)
 	c.Hold(k, "nasConvert.PartialServiceAreaListToNas", enc)
 	got, err := refconv.ParseServiceAreaList(enc)
 	ok := err == nil && got.MCC == mcc && got.MNC == mnc && got.Allowed == (k.I[2] == 1) && len(got.TACs) == len(want)
